@@ -32,7 +32,7 @@ ASSUMPTIONS = ["chip/air model decisions M1, M3, M4, M8 (DESIGN.md section 3)",
 CLAUSES = {"rejects": "ValueError before anything reaches the radio", "loaded": "bytes uploaded to the TX FIFO",
            "delivered": "byte-for-byte, exactly once, in order, right pipe", "result": "premise: working link",
            "unaliased": "caller's buffer object is never modified"}
-PROBES = ["pid_duplicate_dropped", "send_on_dead_medium", "retargeted"]
+PROBES = ["pid_duplicate_dropped", "send_on_dead_medium", "retargeted"]   # premise_broken_by_loss_pattern is rare by design
 SHRINK_KEYS = ("ops", "faults")
 CHUNK = 40
 
@@ -222,6 +222,7 @@ def _run(scn, cfg, w, res):
         return cur
 
     outstanding = 0
+    premise_broken = False
     cur_pipe = cfg["pipe"]
     stale = False
     for op in scn["ops"]:
@@ -262,6 +263,7 @@ def _run(scn, cfg, w, res):
         bad = cfg["dyn"] and any(len(b) == 0 or len(b) > 32 for b in bufs)
         spi_mark = len(rt.spi_log)
         air_mark = w.air.n
+        tr_mark = len(w.air.trace)
         sim.log("call", "T", op["op"], len(bufs), [len(b) for b in bufs])
         arg = bufs if op["list"] else bufs[0]
         exc = None
@@ -335,6 +337,16 @@ def _run(scn, cfg, w, res):
         # ---- result (premise: working link)
         rets = ret if op["list"] else [ret]
         if not isinstance(rets, list) or len(rets) != len(bufs) or not all(bool(x) for x in rets):
+            seg = w.air.trace[tr_mark:]
+            hit = [t for t in seg if any(str(oc).startswith("fault:") for (_, oc) in t["rx"])]
+            got_ack = any(t["ack"] and any(oc == "ack_ok" for (_, oc) in t["rx"]) for t in seg)
+            if scn.get("faults") and hit and not got_ack and isinstance(rets, list) and len(rets) == len(bufs) == 1:
+                # the seeded loss pattern happened to hit every attempt of this payload or its acknowledgement (the generator only
+                # bounds runs of lost transmissions): the link was not a working one for this call - the premise is gone, the run
+                # ends here; whatever the peer holds must still be payloads that were sent
+                sim.count("premise_broken_by_loss_pattern")
+                premise_broken = True
+                break
             res.add("result", {"kind": "send_reported_failure"}, "%s returned %r on a working link" % (op["op"], ret))
         expected.extend((cur_pipe if fwd else cfg["rpipe"], e) for e in exp)
         outstanding += len(bufs)
@@ -349,7 +361,14 @@ def _run(scn, cfg, w, res):
     else:
         drain_all()
     want = [(pp, len(e), e) for (pp, e) in expected]
-    if got != want:
+    if premise_broken:
+        # the payload of the call that met the dead pattern may or may not have arrived (its ACKs were lost): everything before it
+        # must be there, in order; one more copy of that payload is acceptable, nothing else
+        last = common.expected_payload(cfg, bufs[0])
+        if got[:len(want)] != want or any(g[2] != last for g in got[len(want):]) or len(got) > len(want) + 1:
+            res.add("delivered", {"kind": "mismatch_before_dead_pattern"}, "peer read %r, expected %r (+ at most one %s)" % ([(g[0], g[1], hx(g[2] or b"")) for g in got][:8], [(x[0], x[1], hx(x[2])) for x in want][:8], hx(last)))
+        rr.rx_fifo.clear()
+    elif got != want:
         kind = "mismatch"
         gb = [g[2] for g in got]
         wb = [x[2] for x in want]
